@@ -322,6 +322,14 @@ impl<'a> Run<'a> {
                     format!("op={kind} {:?} on slot {victim}: accepted, the reference decoder says {e}", op),
                     Some("C01"),
                 );
+                // (C08: a sealed token altered into something the reference cannot even read,
+                // and accepted)
+                report(
+                    self,
+                    "sealed-token-altered",
+                    format!("op={kind} {:?} applied to the sealed token of slot {victim} is accepted under the issuing root key; the reference decoder refuses the altered message: {e}", op),
+                    Some("C08"),
+                );
                 return;
             }
         };
